@@ -26,6 +26,9 @@
 (* A target file is a function D from object numbers to values.             *)
 EXTENDS Naturals, Sequences, FiniteSets
 
+CONSTANT MaxChain   \* the longest chain of references a reader of the source resolves
+                    \* (limits.MaxExtractDepth = 256 in go-pdf); a longer chain is null to it
+
 Sc(a) == [t |-> "s", a |-> a]
 Nul == [t |-> "z"]
 Rf(n) == [t |-> "r", n |-> n]
@@ -38,14 +41,35 @@ Kind(G, n) == IF n \in DOMAIN G THEN G[n].k ELSE "dangling"
 (* of references r1 -> r2 -> ... -> value denotes the object it ends in.    *)
 (* Canon = the number of that object, 0 for the null object (free,          *)
 (* dangling, `n 0 obj null endobj`, or a chain that loops).  Null objects   *)
-(* have no identity: nothing is demanded about how many there are.          *)
+(* have no identity: nothing is demanded about how many there are.  The     *)
+(* value of a reference is what the reader of the source file makes of it:  *)
+(* following more than MaxChain references (the first one included) is      *)
+(* given up, the reference is null.                                         *)
 RECURSIVE CanonFrom(_, _, _)
 CanonFrom(G, n, seen) ==
   IF n \in seen THEN 0
   ELSE LET k == Kind(G, n) IN
-       IF k = "ref" THEN CanonFrom(G, G[n].to, seen \cup {n})
+       IF k = "ref" THEN (IF Cardinality(seen) + 1 >= MaxChain THEN 0
+                          ELSE CanonFrom(G, G[n].to, seen \cup {n}))
        ELSE IF k = "val" /\ G[n].v.t # "z" THEN n ELSE 0
 Canon(G, n) == CanonFrom(G, n, {})
+
+(* Over-long chains make "the object a reference denotes" depend on where   *)
+(* the chain is entered: r1 -> r2 -> ... (MaxChain + 1 references) is null  *)
+(* from r1 but an object from r2.  The property identifies the references   *)
+(* of a chain; it says nothing for a source in which both such an r1 and a  *)
+(* later reference of its chain, or the object at its end, are used (the    *)
+(* copier at hand gives null or the object depending on the order of the    *)
+(* calls).  Such sources are not judged.                                    *)
+RECURSIVE LongFrom(_, _, _)
+LongFrom(G, n, seen) ==
+  IF n \in seen THEN FALSE
+  ELSE IF Kind(G, n) = "ref" THEN (IF Cardinality(seen) + 1 >= MaxChain THEN TRUE
+                                   ELSE LongFrom(G, G[n].to, seen \cup {n}))
+  ELSE FALSE
+RECURSIVE ChainFrom(_, _, _)
+ChainFrom(G, n, seen) ==
+  IF n \in seen \/ Kind(G, n) # "ref" THEN seen \cup {n} ELSE ChainFrom(G, G[n].to, seen \cup {n})
 
 (* the same on the target side: an object of the target may itself be a    *)
 (* reference (nothing in the property forbids it)                           *)
@@ -156,4 +180,10 @@ ReachFrom(G, seen, todo) ==
                  ELSE IF Kind(G, n) = "val" THEN Refs(G[n].v) ELSE {}
        IN ReachFrom(G, seen \cup {n}, (todo \cup nx) \ (seen \cup {n}))
 Reach(G, vals) == ReachFrom(G, {}, UNION {Refs(v) : v \in vals})
+(* the references that are written somewhere (not merely links of a chain) *)
+Explicit(G, vals) == UNION {Refs(v) : v \in vals}
+                     \cup UNION {Refs(G[n].v) : n \in {m \in Reach(G, vals) : Kind(G, m) = "val"}}
+Ambiguous(G, vals) ==
+  LET E == Explicit(G, vals) IN
+  \E h \in E : LongFrom(G, h, {}) /\ \E j \in E \ {h} : j \in ChainFrom(G, h, {})
 =============================================================================
